@@ -254,6 +254,9 @@ VERUS = {
     'many': dict(props=['C15', 'C05'], tier='quick',
                  desc='RawTable::get_many_mut on extracted text, pointers into the table kept as bucket indices, for any N and ANY result of the N lookups (unlawful equality closures included): turning the N pointers into N exclusive references requires that no two of them are the same bucket -- the precondition of that conversion -- and the duplicate check of the real text establishes it on every path that returns (the other path panics)',
                  paired={}),
+    'dropglue': dict(props=['C03', 'C10'], tier='quick',
+                     desc='the drop / clear glue on extracted text (RawTableInner::drop_inner_table, Drop for RawTable, RawTable::clear incl. its scope guard -- which is not forgotten, so its closure runs when the block ends --, RawTable::clear_no_drop, Drop for RawDrain) against the contracts of drop_elements (unit iter), clear_no_drop (unit ctrl) and free_buckets, whose preconditions make double drop, leak and double free into obligations: an allocated table has every element dropped once and is then freed once, the unallocated singleton is left alone, clear drops everything and then resets the control bytes (an already empty table is left as it is), a drain drops what is left, resets its table and moves a valid empty table back into the map',
+                     paired={}),
     'assoc': dict(props=['C01', 'C06'], tier='quick',
                   desc='lemma-only unit over the contracts of units ctrl / rehash / resize: what rehash_in_place and resize_inner establish (every FULL bucket placed) is the reachability invariant F2 that insert and erase are proved to preserve; and lookup BY KEY: for a lawful Eq (the closure accepts exactly the buckets holding an element with key k) and a lawful Hash (such elements were stored under the probed hash), find_inner answers Some exactly when an element with key k is stored, and the bucket it returns holds one',
                   paired={}),
